@@ -169,8 +169,8 @@ func infoFor(p *Pair) *FontInfo {
 			}
 		}
 	}()
-	fi.GoGPOSDropped = fi.GPOS && len(p.Go.GPOS.Lookups) == 0 && rawLookupCount(p, "GPOS") != 0
-	fi.GoGSUBDropped = fi.GSUB && len(p.Go.GSUB.Lookups) == 0 && rawLookupCount(p, "GSUB") != 0
+	fi.GoGPOSDropped = fi.GPOS && len(p.Go.GPOS.Lookups) == 0 && rawLookupCount(p, "GPOS") > 0
+	fi.GoGSUBDropped = fi.GSUB && len(p.Go.GSUB.Lookups) == 0 && rawLookupCount(p, "GSUB") > 0
 	fi.MacOnly, fi.CmapIDs = cmapRecords(p)
 	infoMu.Lock()
 	infoCache[key] = fi
